@@ -224,10 +224,21 @@ def nearestStep (target : Int) (a : Acc) (x : Item) : Acc :=
   else if Dist.lt (.fin distance) a.dist then ⟨a.count, a.weight, some x.idx, .fin distance⟩
   else a
 
-/-- The reduce closure: the left candidate wins only if it is *strictly*
-nearer (of several equally near candidates the one of the right-most leaf is
-kept) – the index is therefore schedule dependent on ties, its distance is not. -/
+/-- The reduce closure (since /repo f4e2819): the RIGHT candidate wins only if it is
+*strictly* nearer (`if nearest_distance1 < nearest_distance0 { 1 } else { 0 }`) – of several
+equally near candidates the one of the left-most leaf is kept, like the fold keeps the
+first of a leaf.  The whole tuple, index included, is therefore the sequential fold's,
+whatever the split tree (`Proofs/Par.lean: parNearest_eq_foldl`). -/
 def nearestMerge (a b : Acc) : Acc :=
+  if Dist.lt b.dist a.dist then ⟨a.count + b.count, a.weight + b.weight, b.idx, b.dist⟩
+  else ⟨a.count + b.count, a.weight + b.weight, a.idx, a.dist⟩
+
+/-- The reduce closure BEFORE /repo f4e2819 (defect N11): the left candidate won only if
+it was *strictly* nearer (`if d0 < d1 { 0 } else { 1 }`) – of several equally near
+candidates the one of the right-most leaf was kept, while the fold keeps the first of a
+leaf: the index was schedule dependent on ties (its distance was not), and with rounded
+distances so was the pivot's coordinate.  Kept for the regression witnesses. -/
+def nearestMergeOld (a b : Acc) : Acc :=
   if Dist.lt a.dist b.dist then ⟨a.count + b.count, a.weight + b.weight, a.idx, a.dist⟩
   else ⟨a.count + b.count, a.weight + b.weight, b.idx, b.dist⟩
 
@@ -238,6 +249,26 @@ def items (coords weights : List Int) : List Item :=
 /-- The whole `fold(..).reduce(..)` of `par_rcb_split` along the tree `t`. -/
 def parNearest (target : Int) (t : SplitTree) (xs : List Item) : Acc :=
   parFoldR (nearestStep target) nearestInit nearestMerge nearestInit t xs
+
+/-- The same with the reduce closure the code had before /repo f4e2819. -/
+def parNearestOld (target : Int) (t : SplitTree) (xs : List Item) : Acc :=
+  parFoldR (nearestStep target) nearestInit nearestMergeOld nearestInit t xs
+
+/-- The fold closure with a ROUNDING subtraction: `dist c t` stands for the `f32` value of
+`point - split_target` (any function; `nearestStep` is the case `dist c t = c - t`). -/
+def nearestStepD (dist : Int → Int → Int) (target : Int) (a : Acc) (x : Item) : Acc :=
+  let distance := dist x.coord target
+  if distance < 0 then ⟨a.count + 1, a.weight + x.weight, a.idx, a.dist⟩
+  else if Dist.lt (.fin distance) a.dist then ⟨a.count, a.weight, some x.idx, .fin distance⟩
+  else a
+
+/-- `par_rcb_split`'s `fold(..).reduce(..)` with rounded distances along the tree `t`. -/
+def parNearestD (dist : Int → Int → Int) (target : Int) (t : SplitTree) (xs : List Item) : Acc :=
+  parFoldR (nearestStepD dist target) nearestInit nearestMerge nearestInit t xs
+
+/-- … and with the reduce closure the code had before /repo f4e2819. -/
+def parNearestOldD (dist : Int → Int → Int) (target : Int) (t : SplitTree) (xs : List Item) : Acc :=
+  parFoldR (nearestStepD dist target) nearestInit nearestMergeOld nearestInit t xs
 
 /-! ### Hilbert: per-part weights in `weighted_quantiles` -/
 
